@@ -16,4 +16,5 @@ def run(ctx):
             lambda: pc.family_faults(False, ctx.seed), lambda: pc.family_faults(True, ctx.seed),
             lambda: pc.family_gates(False), lambda: pc.family_gates(True), pc.family_retry0, lambda: pc.family_overflow(False), lambda: pc.family_overflow(True)]
     mc = ["MCProducer.small.cfg"] if ctx.tier == "quick" else ["MCProducer.quick.cfg", "MCProducer.p2.cfg"]
-    return pc.check(ctx, "C02", fams, mc)
+    # the model itself exhibits the known Retry.Max=0 finding: that run must violate OrderOK
+    return pc.check(ctx, "C02", fams, mc, extra_mc=[("MCProducer", "MCProducer.retry0.cfg", "OrderOK")])
